@@ -20,6 +20,7 @@ struct Gen
     int tier;
     uint32_t nextMsgId;
     int64_t clock{0};
+    bool bigFrames{false};
     std::vector<int64_t> busyUntil;  // per node id: time until which its link is busy (keeps per-link FIFO)
 
     Gen(const std::string& prop, int tier_, uint64_t batchSeed, uint64_t idx)
@@ -121,7 +122,7 @@ struct Gen
                 maxB = 9000;
                 break;
             case 7:
-                maxB = 65559;
+                maxB = bigFrames && rng.chance(1, 3) ? rng.range(65560, 300000) : 65559;  // C01 / C10 put no upper bound on max
                 break;
             case 8:
                 maxB = rng.chance(1, 2) ? rng.range(25, 300) : 24 + (1LL << rng.range(0, 15));  // (max - 24) a power of two
@@ -129,6 +130,11 @@ struct Gen
             default:
                 maxB = rng.range(25, 2000);
                 break;
+        }
+        if (maxB > 65559)
+        {
+            minB = rng.chance(1, 2) ? 0 : rng.range(0, 3000);  // jumbo frames: keep the padding affordable
+            return;
         }
         switch (rng.below(5))
         {
